@@ -108,7 +108,7 @@ A , char[
 string_
     `" ++ [233]%N ++ runes_of_ascii "` ,}
 ")).
-Eval vm_compute in ("<<<M1867>>>" ++ check (runes_of_ascii "options {
+Eval vm_compute in ("<<<M1866>>>" ++ check (runes_of_ascii "options {
     BodyLength = 3;// " ++ [128512]%N ++ runes_of_ascii " emoji
     T = ""packet"";
     // c
@@ -172,7 +172,7 @@ MetaData body {
     len Pad,
     string leftPad,
 }// trailing space ")).
-Eval vm_compute in ("<<<M1466>>>" ++ check (runes_of_ascii "
+Eval vm_compute in ("<<<M1609>>>" ++ check (runes_of_ascii "
 
   root packet i64_
 { trueish
@@ -270,7 +270,7 @@ false  Foo
 char 
 }  // " ++ [128512]%N ++ runes_of_ascii " emoji
 ")).
-Eval vm_compute in ("<<<M1735>>>" ++ check (runes_of_ascii "
+Eval vm_compute in ("<<<M1739>>>" ++ check (runes_of_ascii "
 options
 	{ FixedStringPadFromLeft = true ;
 
@@ -420,275 +420,231 @@ packet Foo {
         42 : MetaDataX,
     },
 }")).
-Eval vm_compute in ("<<<M1516>>>" ++ check (runes_of_ascii "
+Eval vm_compute in ("<<<M1407>>>" ++ check (runes_of_ascii "
+packet	// packet A { u8 x, }
+	u8x
 
-  packet
-crc  { @lengthOf(Header) 
-repeat
-
-roots  
-  // @lengthOf(
-	  `a\`  ,@lengthOf(  tag  ) match
-	x 
-as
-	string_ {
-[
-
-""a\\""
-
-, ""packet""
-]
-:Header	""// no comment"" 
-  /// triple
-: Logon,
-
-    7: 
-falsey	, 7
-
-:
-metadata [	7 ,
-	00
-]	:
-    // `tick` ""quote"" 'q'
-    repeatCount
-
-    3
-:
-
-    u
-
-    , }
-, 
-        //	t
-	@lengthOf(
-    u128 
-
-    //
-
-// " ++ [27880; 37322]%N ++ runes_of_ascii "
-
-  )
-@rightPad('\x00'// c
-		)  char[] 
-int,
-int16 Packet	@lengthOf(
-	string_
-
-    )
-,  trueish
-{repeat
-	crc  {  zchar calculatedFrom, },
-	}
-	, 
-
-// @lengthOf(
-	//x
-
-@rightPad (
-)
-
-repeat
-	_x	pack// " ++ [27880; 37322]%N ++ runes_of_ascii "
-	  , @lengthOf( 
-    // c
-// trailing space 
-  chars )repeat  string_ { repeat
-
-    uint8x
-`// not a comment`
-	,
-    } 
-, }")).
-Eval vm_compute in ("<<<M1238>>>" ++ check (runes_of_ascii "// top
-options
-    // c0
 {
-    // c1
-zchar
-    // c2
-=
-    // c3
-true
-    // c4
-;
-    // c5
-Pad
-    // c6
-=
-    // c7
+
+}  root packet 
+matchKey
+    {
+
+repeat
+zchar[	0123456789]  // packet A { u8 x, }
+	int
+    ,
+
 char[
-    // c8
-00
-    // c9
+	// `tick` ""quote"" 'q'
+  // a // b
+	4294967296
 ]
-    // c10
-a1
-    // c11
-=
-    // c12
-uint32
-    // c13
-BodyLength
-    // c14
-=
-    // c15
-true
-    // c16
-;
-    // c17
-}
-    // c18
-root
-    // c19
-packet
-    // c20
-T
-    // c21
-{
-    // c22
-@lengthOf(
-    // c23
-repeatCount
-    // c24
-)
-    // c25
-@tag(
-    // c26
-1
-    // c27
-)
-    // c28
-@calculatedFrom(
-    // c29
-""a	b""
-    // c30
-)
-    // c31
-string
-    // c32
-stringy
-    // c33
-@calculatedFrom(
-    // c34
-""\n""
-    // c35
-)
-    // c36
-`u8 x,`
-    // c37
-,
-    // c38
-}
-    // c39
+    asx`{ , }` , 
+repeat
+    i8i8 
+,repeat
+
+    Packet
+	{	repeat	leftPad {f32
+    u128@lengthOf(
+    As ),
+body
+`two words`, // packet A { u8 x, }
+rootA
+
+    Pad ,
+}  ,
+char[
+    00
+] msg_type 
+`tab	here` // " ++ [128512]%N ++ runes_of_ascii " emoji
+  	,
+repeat
+//x
+  	i64_
+    `doc`
+    ,
+zchar x_y_z,}  ,
+
+    } 
+root 
+packet int{ repeat
+    f32a {repeat	f32a
+
+    asx
+
+    `u8 x,`
+	, } ,
+	@lengthOf(
+	// @lengthOf(
+
+  //	t
+
+msg_type // packet A { u8 x, }
+      )
+body
+    , 
+      // c
+//
+
+Z9_ // c
+    zchar	`a\`//x
+  , }  //x
 ")).
-Eval vm_compute in ("<<<M1312>>>" ++ check (runes_of_ascii "// top
-options // c0a
-  // c0b
+Eval vm_compute in ("<<<M164>>>" ++ check (runes_of_ascii "//x
+packet x { @lengthOf(
+string_ )
+// `tick` ""quote"" 'q'
+// trailing space 
+msg_type{
+int // a // b
+@lengthOf( chars
+    )
+//x
+// " ++ [27880; 37322]%N ++ runes_of_ascii "
+`" ++ [28040; 24687; 31867; 22411]%N ++ runes_of_ascii "` , int`a\`  , }
+    ,uint32 chars  @calculatedFrom(
+""`tick`""
+    )
+    `
+` , @lengthOf( packetx // trailing space 
+)
+match
+    metadata as x_y_z
+{ 65535	: x ,007
+// `tick` ""quote"" 'q'
+// " ++ [128512]%N ++ runes_of_ascii " emoji
+: u [ 7 ,
+""// no comment""	,  """ ++ [28040; 24687]%N ++ runes_of_ascii """] :x ""a\\""
+: MetaDataX,0123456789 : lengthOf
+10 :
+//
+// `tick` ""quote"" 'q'
+float  }
+    ,
+    u16 Logon@calculatedFrom(""x y"") `tab	here`
+//	t
+//
+,@lengthOf(Foo ) zchar /// triple
+, }  packet
+    tag { } root packet
+x_y_z{ } MetaData int {
+    string
+A `" ++ [233]%N ++ runes_of_ascii "` ,
+}
+")).
+Eval vm_compute in ("<<<M1239>>>" ++ check (runes_of_ascii "// top
+options // c0
 { // c1a
   // c1b
-FixedStringPadChar = // c3
-'0' ; } packet
-    // c7
-Q // c8
-{ // c9a
-  // c9b
-zchar[ // c10a
-  // c10b
-4 // c11
-] // c12
-z , // c14
-@rightPad ( // c16
-'\x00' ) // c18a
-  // c18b
-char[ 3 // c20a
-  // c20b
-]
-    // c21
-n ,
-    // c23
-char[
-    // c24
-5
-    // c25
-] // c26
-d // c27
-, } // c29a
-  // c29b
-root
-    // c30
-packet R
-    // c32
-{ // c33
-Q , // c35a
-  // c35b
-zchar[ 8 // c37
-] // c38
-top , // c40a
-  // c40b
-repeat
-    // c41
-zchar[
-    // c42
-2
-    // c43
-] // c44a
-  // c44b
-zs
-    // c45
-, // c46a
-  // c46b
-} // c47
-")).
-Eval vm_compute in ("<<<M1115>>>" ++ check (runes_of_ascii "packet float
-    // c1
-{ // c2
-@rightPad // c3a
+zchar // c2
+= // c3a
   // c3b
-( // c4a
-  // c4b
-) // c5a
-  // c5b
-rootA // c6
-@lengthOf( // c7a
-  // c7b
-trueish // c8
-)
-    // c9
-,
+true // c4
+; Pad // c6a
+  // c6b
+=
+    // c7
+char[ 00 // c9a
+  // c9b
+]
     // c10
-stringy // c11a
-  // c11b
-@lengthOf( // c12a
+a1 = // c12a
   // c12b
-matchKey )
-    // c14
-, // c15a
-  // c15b
-char[ 4294967296 ]
-    // c18
-pack @lengthOf(
-    // c20
-uint8x
-    // c21
-) // c22a
-  // c22b
-,
-    // c23
-} // c24
-root // c25
-packet trueish {
-    // c28
-repeat uint64
-    // c30
-u128
-    // c31
-`line1
-line2` // c32
-,
-    // c33
-}
-    // c34
+uint32 // c13a
+  // c13b
+BodyLength = true // c16a
+  // c16b
+;
+    // c17
+} root // c19
+packet // c20
+T // c21a
+  // c21b
+{
+    // c22
+@lengthOf( // c23a
+  // c23b
+repeatCount ) @tag( // c26a
+  // c26b
+1
+    // c27
+) // c28a
+  // c28b
+@calculatedFrom( // c29
+""a	b"" // c30a
+  // c30b
+) // c31a
+  // c31b
+string // c32
+stringy @calculatedFrom( ""\n"" ) // c36
+`u8 x,` // c37a
+  // c37b
+, // c38
+} // c39
 ")).
+Eval vm_compute in ("<<<M1348>>>" ++ check (runes_of_ascii "  options
+{ ArrayPrefixLenType = u64
+    ; FixedStringPadFromLeft = true
+    ;
+
+    FixedStringPadChar 
+=	'0'
+	;
+}
+packet Quote
+    {}
+
+packet
+Ack	{ repeat
+	InNote66
+    {
+u8
+pad0 ,}
+, }packet
+    Reject
+
+    {
+	}
+
+    root packet
+    Order
+	{	Quote
+
+, repeat	Reject ,
+
+string
+
+venue,
+string
+seqNo,uint32	Ref
+	, 
+u16
+lastPx
+, 
+u32 clOrdID
+@lengthOf(Body)
+
+,
+
+    match 
+lastPx as
+
+    Body { 
+190 
+:
+Reject ,
+    186
+
+: Quote,  22:
+Ack
+
+,
+    }
+,u16  Flags @calculatedFrom(  ""CRC32""
+
+    ),	}")).
 Eval vm_compute in ("<<<M33>>>" ++ check (runes_of_ascii "packet
 int {zchar[ 007 ] metadata ,i16	matchKey,
 @rightPad('0')
@@ -717,264 +673,216 @@ body}	, @lengthOf( zchar ) match leftPad as u8x{
     :
     chars	"""" :
     body ,42 : trueish , }, }")).
-Eval vm_compute in ("<<<M374>>>" ++ check (runes_of_ascii "MetaData BodyLength { zchar[ 65535 ]	As `crlf
-line`
-, u16 charz , body len,
-zchar msg_type ,uint64 metadata
-,}
-root packet //
-matchKey
-    {
-repeat i8i8  `{ , }` ,
-} MetaData a1 { i8i8 Pad`it's`	,
-// trailing space 
-// `tick` ""quote"" 'q'
-int64
-    // " ++ [128512]%N ++ runes_of_ascii " emoji
-    roots `doc` ,
-Foo BodyLength `u8 x,` , } packet	_x
-{ lengthOf
-    {
-pack `" ++ [28040; 24687; 31867; 22411]%N ++ runes_of_ascii "` ,
-string_ // @lengthOf(
-, repeat //
-rootA len , zchar[ 1
-] u8x,} , }
-")).
-Eval vm_compute in ("<<<M1139>>>" ++ check (runes_of_ascii "// top
+Eval vm_compute in ("<<<M1140>>>" ++ check (runes_of_ascii "// top
 MetaData
     // c0
-leftPad
-    // c1
+leftPad // c1
 {
     // c2
-chars
-    // c3
-MetaDataX
-    // c4
-,
-    // c5
-}
-    // c6
-packet
-    // c7
-repeatCount
-    // c8
-{
-    // c9
-char[
+chars // c3a
+  // c3b
+MetaDataX // c4
+, // c5a
+  // c5b
+} packet // c7a
+  // c7b
+repeatCount // c8
+{ char[
     // c10
-255
-    // c11
-]
-    // c12
+255 // c11a
+  // c11b
+] // c12a
+  // c12b
 uint8x
     // c13
-`" ++ [233]%N ++ runes_of_ascii "`
-    // c14
+`" ++ [233]%N ++ runes_of_ascii "` // c14a
+  // c14b
 ,
     // c15
-}
-    // c16
-MetaData
-    // c17
-pack
-    // c18
-{
-    // c19
-As
-    // c20
+} // c16a
+  // c16b
+MetaData // c17a
+  // c17b
+pack // c18
+{ // c19a
+  // c19b
+As // c20a
+  // c20b
 Foo
     // c21
 ,
     // c22
-}
-    // c23
+} // c23a
+  // c23b
 ")).
-Eval vm_compute in ("<<<M127>>>" ++ check (runes_of_ascii "packet a1{ @leftPad ( ) float
-@lengthOf(
-uint8x ) , }
-packet Logon {
-char Logon
-@calculatedFrom( ""a\\"" )
-    ,T stringy ,
-//
-// c
-repeat uint8 stringy `two words` , } MetaData charz{ u
-    tag
-    `
-`
-, a1 falsey ,//x
-Z9_
-matchKey , f64 lengthOf	`a\` // @lengthOf(
-,
-    f32a roots
-    ``
-,float64
-    x_y_z // @lengthOf(
-, }
-")).
-Eval vm_compute in ("<<<M1376>>>" ++ check (runes_of_ascii "options {
-    LittleEndian = true;
-}
-packet Logon {
-    u8 x,
-}
-packet Logout {
-    u16 reason,
-}
-root packet Frame {
-    u8 Kind,
-    u8 Kind2,
-    match Kind as Body {
-        1 : Logon,
-        [2, 3, 4] : Logout,
-        100 : Logon,
-    },
-    match Kind2 as Trailer {
-        0 : Logout,
-    },
-}
-")).
-Eval vm_compute in ("<<<M1401>>>" ++ check (runes_of_ascii "packet MDSnapshotZZ {
-    u8 a,
-}
+Eval vm_compute in ("<<<M1515>>>" ++ check (runes_of_ascii "packet	a1
 
-packet OrderACK {
-    u16 b,
-}
+{ char[]
+    charz @calculatedFrom( 
+    //x
+	""" ++ [28040; 24687]%N ++ runes_of_ascii """
 
-packet HTTPServerInfo {
-    string s,
-}
+    )
+    , uint8x`crlf
+line`
 
-root packet FIXMsg {
-    u8 KType,
-    MDSnapshotZZ,
-    repeat OrderACK,
-    match KType as Body {
-        1 : HTTPServerInfo,
-        2 : OrderACK,
-    },
-}")).
-Eval vm_compute in ("<<<M1934>>>" ++ check (runes_of_ascii "packet Sub {
-    u8 a,
-    @calculatedFrom(""CRC16"")
-    i32 SubSum,
-}
+, uint64
+	T
+	`line1
+line2`,  @leftPad
+	(
+'0'
+    ) 
 
-root packet Frame {
-    u16 MsgType,
-    u16 BodyLen @lengthOf(Body),
-    Sub Body,
-    string note,
-    @calculatedFrom(""CRC16"")
-    i32 Checksum,
-    u8 tail,
-}")).
-Eval vm_compute in ("<<<M1545>>>" ++ check (runes_of_ascii "
-packet
+    // a // b
+/// triple
+    @calculatedFrom(""abc""
+	)@tag(3
+)match	int// a // b
 
-A
-
-{ u8
-a  ,}
-    packet B
-
-{
-    u16
-b
-, } root 
-packet
-
-P { 
-u8
-
-    K1,
-    u8
-
-    K2,
-
-    match
-	K1 as M1
-
-    {
-    1: A
-    ,}  ,match
-
-    K2
-	as
-M2
-{
-	1 :
-    B
-    ,  }
-
-, }
-
-")).
-Eval vm_compute in ("<<<M1428>>>" ++ check (runes_of_ascii "packet
-    A
-
-    { 
-Inner{	match  k
 as
+len
+{
+0
+: chars  ,
+[
 
-    n
-	{
-    [
-1
+10 , 
+""a\\"" , 1	,
+0
+,10 , 0
+	] :
 
-,  22 ,007
-
-    ,
-
-    4,5  ,  66	,
-
-    7
-, 8,
-	9
-
-    , 10
-,	11
-,12 ]
-
-    :
-B
-    ,},
-}
-	,
-}
-
+body, 007 :
+// a // b
+  rootA 	 // a // b
+  ,},
+falsey
+options1,}
 ")).
-Eval vm_compute in ("<<<M1562>>>" ++ check (runes_of_ascii "
+Eval vm_compute in ("<<<M30>>>" ++ check (runes_of_ascii "packet
+repeatCount
+    {@calculatedFrom(	""abc"" ) zchar[
+    // @lengthOf(
+    0
+] // `tick` ""quote"" 'q'
+MetaDataX  `
+`	, string_
+@calculatedFrom( ""1""
+    ) ,	match string_
+    as msg_type{ [// a // b
+65535	,// a // b
+""a	b""
+    , 7
+    ,	255 ]:
+matchKey , 10 :
+    options1 , 3 :Logon
+    , } ,
+    // " ++ [27880; 37322]%N ++ runes_of_ascii "
+    packetx `a\` ,}
+")).
+Eval vm_compute in ("<<<M321>>>" ++ check (runes_of_ascii "
+options
+{ a1 = '\x00'
+As
+= ""{,}"" u8x
+=//x
+""a	b""
+    ; asx
+    = u64;
+o
 // @lengthOf(
-	packet
-
-i8i8
-	{
-	u128 o
+// c
+=0123456789 } packet Header
+{
+    //
+    @lengthOf(x // trailing space 
+)
+    // " ++ [27880; 37322]%N ++ runes_of_ascii "
+    repeat
+falsey { repeatCount
+    trueish
+`u8 x,` , } ,
+// `tick` ""quote"" 'q'
+// " ++ [128512]%N ++ runes_of_ascii " emoji
+zchar[
+65535 ] x
     ,
-}	options
-{MetaDataX	=
-true
-
-;
-BodyLength = 
-""packet""x_y_z
-
-    = 007 crc //x
-	=
-""abc""
-msg_type = 
-i16 
+}")).
+Eval vm_compute in ("<<<M1320>>>" ++ check (runes_of_ascii "packet P1 {
+    u8 a,
 }
-
+packet P2 {
+    P1,
+}
+packet P3 {
+    P2,
+    P1,
+}
+packet P4 {
+    repeat P3,
+    P2,
+}
+root packet P5 {
+    P4,
+    P3,
+    P1,
+    u8 K,
+    match K as Body {
+        4 : P4,
+        3 : P3,
+        2 : P2,
+        1 : P1,
+    },
+}
 ")).
-Eval vm_compute in ("<<<M438>>>" ++ check (runes_of_ascii "packet uint8x
+Eval vm_compute in ("<<<M1845>>>" ++ check (runes_of_ascii "// top
+MetaData uint8x {
+    // c2
+    char[] f32a `// not a comment`,
+    // c6
+    float32 roots,
+    // c9
+    char[7] u8x,
+    // c14
+    zchar[10] f32a,
+    // c19
+    u64 pack,
+    // c22
+    u16 pack,
+    // c25
+}
+// c26")).
+Eval vm_compute in ("<<<M207>>>" ++ check (runes_of_ascii "
+MetaData chars { } options
+{ As
+= true ;As // `tick` ""quote"" 'q'
+= false; stringy
+= true} packet repeatCount  {string
+    float@lengthOf(
+    matchKey )
+// packet A { u8 x, }
+//x
+`say ""hi""` ,
+}
+")).
+Eval vm_compute in ("<<<M62>>>" ++ check (runes_of_ascii "packet
+crc { @leftPad //	t
+( ) repeat
+charz float
+    ,} root packet
+options1 {
+@tag( 65535/// triple
+)packetx
+{ u128 , f32 /// triple
+a1 ,
+    } , }
+// trailing space 
+")).
+Eval vm_compute in ("<<<M421>>>" ++ check (runes_of_ascii "packet uint8x
 { match pack
-    as msg_type	{
-    0123456789 `it's`	float
+    as msg_type msg_type	{
+    0123456789 :	float
 }
 ,
 } packet //	t
@@ -982,18 +890,27 @@ a1
     { } options {packetx
     = '\x00'	; u128= ""a	b""  ; }
 ")).
-Eval vm_compute in ("<<<M456>>>" ++ check (runes_of_ascii "packet uint8x
-{ match pack
-    as msg_type	{
-    0123456789 :	float
-}
-,
-} } packet //	t
+Eval vm_compute in ("<<<M1639>>>" ++ check (runes_of_ascii "
+
+  packet uint8x{  match  pack as
+
+    msg_type{ 
+0123456789
+: float }
+	,
+    }
+packet	//	t
 a1
-    { } options {packetx
-    = '\x00'	; u128= ""a	b""  ; }
+{} options  {packetx
+
+=
+	char;
+u128
+	=""a	b""
+    ; 
+}
 ")).
-Eval vm_compute in ("<<<M393>>>" ++ check (runes_of_ascii "uint8x packet
+Eval vm_compute in ("<<<M542>>>" ++ check (runes_of_ascii "$ packet uint8x
 { match pack
     as msg_type	{
     0123456789 :	float
@@ -1004,243 +921,255 @@ a1
     { } options {packetx
     = '\x00'	; u128= ""a	b""  ; }
 ")).
-Eval vm_compute in ("<<<M673>>>" ++ check (runes_of_ascii "// @lengthOf(
-packet i8i8 { u128 o , }
+Eval vm_compute in ("<<<M442>>>" ++ check (runes_of_ascii "packet uint8x
+{ match pack
+    as msg_type	{
+    0123456789 :	}
+float
+,
+} packet //	t
+a1
+    { } options {packetx
+    = '\x00'	; u128= ""a	b""  ; }
+")).
+Eval vm_compute in ("<<<M470>>>" ++ check (runes_of_ascii "packet uint8x
+{ match pack
+    as msg_type	{
+    0123456789 :	float
+}
+,
+} packet //	t
+a1
+     } options {packetx
+    = '\x00'	; u128= ""a	b""  ; }
+")).
+Eval vm_compute in ("<<<M667>>>" ++ check (runes_of_ascii "// @lengthOf(
+packet i8i8 { u128 o char }
 options { MetaDataX = true;
-    BodyLength =""packet"" x_y_z float64 007
+    BodyLength =""packet"" x_y_z= 007
 crc //x
 = ""abc"" ;
     msg_type =
 i16 }")).
-Eval vm_compute in ("<<<M1951>>>" ++ check (runes_of_ascii "
-packet
-
-A { match  k
-    as
-n  {
-[  ""a""
-	,  ""bb""
-,
-""c c"" ,
-    ""d""	,	""e""
-
-,
-
-""f"" ,""g"" ,
-
-""h"" ,
-""i"",
-    ""j""
-    ,""k""]:
-B
-	,
-
-2
-	:C }
-
-,
+Eval vm_compute in ("<<<M718>>>" ++ check (runes_of_ascii "// @lengthOf(
+packet i8i8 { u128 o , }
+options { MetaDataX = true;
+    BodyLength =""packet"" x_y_z= 007
+crc //x
+= ""abc"" ;
+    msg_type as
+i16 }")).
+Eval vm_compute in ("<<<M710>>>" ++ check (runes_of_ascii "// @lengthOf(
+packet i8i8 { u128 o , }
+options { MetaDataX = true;
+    BodyLength =""packet"" x_y_z= 007
+crc //x
+= ""abc"" ;
+    msg_type 
+i16 }")).
+Eval vm_compute in ("<<<M1500>>>" ++ check (runes_of_ascii "packet A {
+    match k as n {
+        [
+            1, ""bb"", 007, ""d"", 5,
+            ""f"", 7, ""h""
+        ] : B,
+        2 : C,
+    },
+}")).
+Eval vm_compute in ("<<<M1814>>>" ++ check (runes_of_ascii "  packet B
+{ u8
+a,
 
     }
-")).
-Eval vm_compute in ("<<<M395>>>" ++ check (runes_of_ascii "packet 
-{ match pack
-    as msg_type	{
-    0123456789 :	float
-}
+root
+	packet
+P  { u8
+	K, 
+u8 L
+
+    @lengthOf(
+Body
+
+    )
 ,
-} packet //	t
-a1
-    { } options {packetx
-    = '\x00'	; u128= ""a	b""  ; }
+	match  K	as
+
+Body	{1 : B
+	, }, }
 ")).
-Eval vm_compute in ("<<<M137>>>" ++ check (runes_of_ascii "
-packet u128//x
-{ @calculatedFrom(  ""x y""
-    ) // `tick` ""quote"" 'q'
-@rightPad (  ' ') char[ 42 ]  Header
-    @calculatedFrom( ""abc"" ),  }
-
-")).
-Eval vm_compute in ("<<<M524>>>" ++ check (runes_of_ascii "packet uint8x
-{ match pack
-    as msg_type	{
-    0123456789 :	float
-}
-,
-} packet //	t
-a1
-    { } options {packetx
-    = '\x00'	; u128=")).
-Eval vm_compute in ("<<<M144>>>" ++ check (runes_of_ascii "  MetaData falsey {o i8i8
-,char[]
-pack  ,
-float32 lengthOf , len //x
-BodyLength, BodyLength o
-, stringy  u128	`crlf
-line` , } 	 ")).
-Eval vm_compute in ("<<<M1455>>>" ++ check (runes_of_ascii "packet A
-	{ match k 
-as 
-n
-	{ [ 1  ,
-
-22
-    ,  ""c c"" ,
-
-    4
-
-, 
-5 ,""f""  ,  7 ,	8
-	, 
-""i"" , 10]:	B
-
-2
-    :
-	C } ,
-}
-
-")).
-Eval vm_compute in ("<<<M1150>>>" ++ check (runes_of_ascii "MetaData leftPad { chars
-// c
-MetaDataX , } packet repeatCount { char[ 255 ] uint8x `" ++ [233]%N ++ runes_of_ascii "` , } MetaData pack { As Foo , }")).
-Eval vm_compute in ("<<<M1182>>>" ++ check (runes_of_ascii "MetaData leftPad { chars MetaDataX , } packet repeatCount { char[ 255 ] uint8x `" ++ [233]%N ++ runes_of_ascii "` , } MetaData pack {
-// c
-As Foo , }")).
-Eval vm_compute in ("<<<M961>>>" ++ check (runes_of_ascii "packet A {
-    u16 len @lengthOf(body) `tab
-	x`,
-    u32 crc @calculatedFrom(""CRC32"") `tab
-	x`,
+Eval vm_compute in ("<<<M1572>>>" ++ check (runes_of_ascii "packet A {
+    u16 len @lengthOf(body) `x
+        `,
+    u32 crc @calculatedFrom(""CRC32"") `x
+        `,
     string body,
 }")).
-Eval vm_compute in ("<<<M902>>>" ++ check (runes_of_ascii "packet A {
+Eval vm_compute in ("<<<M1156>>>" ++ check (runes_of_ascii "MetaData leftPad { chars MetaDataX , }
+// c
+packet repeatCount { char[ 255 ] uint8x `" ++ [233]%N ++ runes_of_ascii "` , } MetaData pack { As Foo , }")).
+Eval vm_compute in ("<<<M1188>>>" ++ check (runes_of_ascii "MetaData leftPad { chars MetaDataX , } packet repeatCount { char[ 255 ] uint8x `" ++ [233]%N ++ runes_of_ascii "` , } MetaData pack { As Foo ,
+// c
+}")).
+Eval vm_compute in ("<<<M1844>>>" ++ check (runes_of_ascii "  packet A  {
+
+    match k
+as
+n {
+[ 1 
+,
+
+""bb""	,007
+	,
+
+""d"" ,
+    5,""f"",
+
+    7
+]: B  2:
+C
+}
+
+    ,
+
+} ")).
+Eval vm_compute in ("<<<M142>>>" ++ check (runes_of_ascii "packet
+len
+    // " ++ [128512]%N ++ runes_of_ascii " emoji
+    { int64 a1	@lengthOf(x_y_z )	, }
+// c
+// trailing space 
+packet x_y_z { }
+
+")).
+Eval vm_compute in ("<<<M896>>>" ++ check (runes_of_ascii "packet A {
   match k as n {
-    [""a"", ""bb"", 007, ""d"", ""e"", 66, ""g"", ""h"", 9, ""j"", ""k""] : B
+    [1, ""bb"", 007, ""d"", 5, ""f"", 7, ""h"", 9, ""j"", 11] : B
     2 : C
   },
 }")).
-Eval vm_compute in ("<<<M868>>>" ++ check (runes_of_ascii "packet A {
+Eval vm_compute in ("<<<M905>>>" ++ check (runes_of_ascii "packet A {
   match k as n {
-    [""a"", ""bb"", ""c c"", ""d"", ""e"", ""f"", ""g"", ""h"", ""i""] : B
+    [1, 22, 007, 4, 5, 66, 7, 8, 9, 10, 11, 12] : B
     2 : C
   },
 }")).
-Eval vm_compute in ("<<<M882>>>" ++ check (runes_of_ascii "packet A {
-  match k as n {
-    [1, ""bb"", 007, ""d"", 5, ""f"", 7, ""h"", 9, ""j""] : B,
-    2 : C
-  },
-}")).
-Eval vm_compute in ("<<<M593>>>" ++ check (runes_of_ascii "
+Eval vm_compute in ("<<<M580>>>" ++ check (runes_of_ascii "
 packet
-    asx {match u128 as lengthOf
-{
-//	t
-// `tick` ""quote"" 'q'
-255 255 : x ,
-    } ,	}")).
-Eval vm_compute in ("<<<M842>>>" ++ check (runes_of_ascii "packet A {
-  match k as n {
-    [""a"", ""bb"", ""c c"", ""d"", ""e"", ""f"", ""g""] : B
-    2 : C
-  },
-}")).
-Eval vm_compute in ("<<<M619>>>" ++ check (runes_of_ascii "
-packet
-    asx {match u128 as lengthOf
+    asx {match u128 char[ lengthOf
 {
 //	t
 // `tick` ""quote"" 'q'
 255 : x ,
-    } }	,")).
-Eval vm_compute in ("<<<M592>>>" ++ check (runes_of_ascii "
+    } ,	}")).
+Eval vm_compute in ("<<<M636>>>" ++ check (runes_of_ascii "
 packet
     asx {match u128 as lengthOf
 {
 //	t
-// `tick` ""quote"" 'q'
- : x ,
+// `ti/ck` ""quote"" 'q'
+255 : x ,
     } ,	}")).
-Eval vm_compute in ("<<<M837>>>" ++ check (runes_of_ascii "packet A {
+Eval vm_compute in ("<<<M575>>>" ++ check (runes_of_ascii "
+packet
+    asx {match u64 as lengthOf
+{
+//	t
+// `tick` ""quote"" 'q'
+255 : x ,
+    } ,	}")).
+Eval vm_compute in ("<<<M572>>>" ++ check (runes_of_ascii "
+packet
+    asx {match  as lengthOf
+{
+//	t
+// `tick` ""quote"" 'q'
+255 : x ,
+    } ,	}")).
+Eval vm_compute in ("<<<M847>>>" ++ check (runes_of_ascii "packet A {
   match k as n {
-    [""a"", ""bb"", 007, ""d"", ""e"", 66] : B
+    [1, 22, ""c c"", 4, 5, ""f"", 7] : B,
     2 : C
   },
 }")).
-Eval vm_compute in ("<<<M1821>>>" ++ check (runes_of_ascii "packet A {
+Eval vm_compute in ("<<<M1591>>>" ++ check (runes_of_ascii "packet A {
     match k as n {
-        [1, 22, 007] : B,
+        [""a"", ""bb""] : B,
         2 : C,
     },
 }")).
-Eval vm_compute in ("<<<M1503>>>" ++ check (runes_of_ascii "packet A {
-    @tag(1)
-    // a
-    @leftPad('0')
-    // b
-    char[4] x,
+Eval vm_compute in ("<<<M67>>>" ++ check (runes_of_ascii "options { charz =""1"" _x= """ ++ [128512]%N ++ runes_of_ascii """ u = string ; stringy=
+""" ++ [28040; 24687]%N ++ runes_of_ascii """ }
+// @lengthOf(
+")).
+Eval vm_compute in ("<<<M1796>>>" ++ check (runes_of_ascii "packet A {
+    match k as n {
+        [1] : B,
+        2 : C,
+    },
 }")).
-Eval vm_compute in ("<<<M793>>>" ++ check (runes_of_ascii "packet A {
+Eval vm_compute in ("<<<M780>>>" ++ check (runes_of_ascii "packet A {
   match k as n {
-    [""a"", 22, ""c c""] : B,
+    [""a"", ""bb""] : B,
     2 : C
   },
 }")).
-Eval vm_compute in ("<<<M942>>>" ++ check (runes_of_ascii "packet A {
-    B b `a
-
-b`,
-    B `a
-
-b`,
-    repeat B bs `a
-
-b`,
-}")).
-Eval vm_compute in ("<<<M778>>>" ++ check (runes_of_ascii "packet A {
+Eval vm_compute in ("<<<M439>>>" ++ check (runes_of_ascii "packet uint8x
+{ match pack
+    as msg_type	{
+    0123456789")).
+Eval vm_compute in ("<<<M774>>>" ++ check (runes_of_ascii "packet A {
   match k as n {
-    [1, 22] : B,
+    [1] : B
     2 : C
   },
 }")).
-Eval vm_compute in ("<<<M799>>>" ++ check (runes_of_ascii "packet A { Inner { match k as n { [1,22,007] : B, }, }, }")).
-Eval vm_compute in ("<<<M963>>>" ++ check (runes_of_ascii "MetaData M {
-    u8 x `tab
-	x`,
-    T t `tab
-	x`,
-}")).
-Eval vm_compute in ("<<<M333>>>" ++ check (runes_of_ascii "  MetaData
-x_y_z{ }	packet chars	{	} options {}
+Eval vm_compute in ("<<<M1201>>>" ++ check (runes_of_ascii "packet body // c
+{ i32 f32a `{ , }` , } options { }")).
+Eval vm_compute in ("<<<M1482>>>" ++ check (runes_of_ascii "
+packet
+A
+{	u8
+    x  `d" ++ [12288]%N ++ runes_of_ascii "`
+
+    , 	 // c" ++ [12288]%N ++ runes_of_ascii "
+  }
 ")).
-Eval vm_compute in ("<<<M763>>>" ++ check (runes_of_ascii "@calculatedFrom( true ; MetaData """ ++ [233]%N ++ runes_of_ascii "t" ++ [233]%N ++ runes_of_ascii """ match")).
-Eval vm_compute in ("<<<M1607>>>" ++ check (runes_of_ascii "root packet A {
-    u8 x `
-        x`,
+Eval vm_compute in ("<<<M968>>>" ++ check (runes_of_ascii "options {
+    a = ""x\
+y"";
+    b = ""x\
+y""
 }")).
-Eval vm_compute in ("<<<M197>>>" ++ check (runes_of_ascii "
-options {u8x
-=
-    ""packet"" ;	}
-")).
-Eval vm_compute in ("<<<M766>>>" ++ check (runes_of_ascii "Dr1UAAa-*U|u3S?xE-Vr&9^'H>gI<.E")).
-Eval vm_compute in ("<<<M175>>>" ++ check (runes_of_ascii "
-packet calculatedFrom { } 	 ")).
-Eval vm_compute in ("<<<M1080>>>" ++ check (runes_of_ascii "options { a = 1 // a
- ; }")).
-Eval vm_compute in ("<<<M1103>>>" ++ check (runes_of_ascii "// c
-MetaData tag { }")).
-Eval vm_compute in ("<<<M1061>>>" ++ check (runes_of_ascii "packet A {
+Eval vm_compute in ("<<<M591>>>" ++ check (runes_of_ascii "
+packet
+    asx {match u128 as lengthOf")).
+Eval vm_compute in ("<<<M132>>>" ++ check (runes_of_ascii "options
+    { Foo = 0123456789
+; }")).
+Eval vm_compute in ("<<<M1543>>>" ++ check (runes_of_ascii "root packet P {
+    string s,
+}")).
+Eval vm_compute in ("<<<M923>>>" ++ check (runes_of_ascii "packet A {
+    u8 x `a
+b`,
+}")).
+Eval vm_compute in ("<<<M1898>>>" ++ check (runes_of_ascii "MetaData tag {
+    // c
+}")).
+Eval vm_compute in ("<<<M1106>>>" ++ check (runes_of_ascii "MetaData
+// c
+tag { }")).
+Eval vm_compute in ("<<<M1132>>>" ++ check (runes_of_ascii "MetaData u // c
+{ }")).
+Eval vm_compute in ("<<<M1026>>>" ++ check (runes_of_ascii "packet A {
 }
-// c x")).
-Eval vm_compute in ("<<<M1012>>>" ++ check (runes_of_ascii "// c" ++ [8232]%N ++ runes_of_ascii "
-packet A {
-}")).
-Eval vm_compute in ("<<<M989>>>" ++ check (runes_of_ascii "packet A {
-}// c" ++ [133]%N)).
-Eval vm_compute in ("<<<M378>>>" ++ check (runes_of_ascii "// @lengthOf(
+// c" ++ [8287]%N)).
+Eval vm_compute in ("<<<M1009>>>" ++ check (runes_of_ascii "packet A {
+}// c" ++ [8232]%N)).
+Eval vm_compute in ("<<<M761>>>" ++ check (runes_of_ascii "{];z" ++ [65533]%N ++ runes_of_ascii """t" ++ [65533; 65533; 65533]%N ++ runes_of_ascii "XKU" ++ [65533; 2]%N)).
+Eval vm_compute in ("<<<M29>>>" ++ check (runes_of_ascii "// " ++ [27880; 37322]%N ++ runes_of_ascii "
 
 ")).
-Eval vm_compute in ("<<<M561>>>" ++ check (runes_of_ascii "
-packet")).
-Eval vm_compute in ("<<<M56>>>" ++ check (runes_of_ascii " 	 ")).
+Eval vm_compute in ("<<<M1808>>>" ++ check (runes_of_ascii "
+//
+")).
